@@ -396,3 +396,24 @@ Example table_routes_hyp_met :
   let q := {| g_handler := "PushDatadogV2"; g_ce := ""; g_gz_ok := false; g_ct := "text/plain"; g_wire_ok := true |} in
   is_some (find_route gen_routes (g_handler q)) = true /\ g_malformed gen_routes q = true /\ g_predict gen_routes q = Exact C4xx.
 Proof. vm_compute. split; [|split]; reflexivity. Qed.
+
+(* ---- what can panic OUTSIDE the recover scopes ----------------------------------------------- *)
+
+(* Every index / slice / single-value type assertion that runs on the HTTP handler goroutine -- all of controller/,
+   and in utils/unmarshal/ everything reached from Build / Do / doParse* (without their `go` literals), the parser
+   constructors and the PreParse closures (list regenerated from the source) -- is on the allow-list with the reason
+   it cannot panic; the functions of package unmarshal that can run there are setters, resets and constructors; every
+   route looks up its services first (which stores "node" and the services with the asserted types).  Every other
+   index expression of utils/unmarshal/ runs below Decode(), i.e. inside a goroutine that begins with defer tamePanic
+   (decoder_goroutines_recover).  A new index expression or assertion in a controller falsifies this. *)
+Theorem handler_side_panic_sites_accounted :
+  sites_ok gen_handler_side_sites = true /\
+  strs_subset gen_handler_side_functions handler_side_functions_model = true /\
+  forallb first_pre_is_service gen_routes = true.
+Proof. vm_compute. split; [|split]; reflexivity. Qed.
+Print Assumptions handler_side_panic_sites_accounted.
+
+Theorem handler_side_sites_meaning : forall f fn k e, In (f, fn, k, e) gen_handler_side_sites ->
+  exists c, In (f, fn, k, e, c) site_allow_list.
+Proof. apply sites_ok_sound. vm_compute. reflexivity. Qed.
+Print Assumptions handler_side_sites_meaning.
